@@ -95,6 +95,28 @@ def highlevel(ctx, model, cov):
                 ids.append([inst.id, sent[:120].hex()])
             res.append([sp, sub, mx, ids, repr(spelled), mode])
             os.remove(db)
+        # the session database is locked by another writer for longer than the busy timeout: the request may fail
+        # (OperationalError), but an id that IS handed out lies in the requested space and subspace all the same
+        import sqlite3 as _sq
+        for k, (sp, sub, mx) in enumerate(plan[:12]):
+            db = os.path.join(work, f"c01-{os.getpid()}-locked-{k}.db")
+            out = common.RecStream()
+            t = tupimage.TupimageTerminal(out_command=out, out_display=common.RecStream(), in_response=tty_in, id_database=db, config="DEFAULT",
+                                          id_space=sp, id_subspace=sub, max_ids_per_subspace=mx, upload_method="direct", redetect_terminal=False)
+            t.id_manager.conn.execute("PRAGMA busy_timeout=30")
+            holder = _sq.connect(db, isolation_level=None)
+            holder.execute("BEGIN IMMEDIATE")
+            ids = []
+            for j in range(3):
+                try:
+                    inst = t.assign_id(imgs[j], cols=1, rows=1) if j else t.upload(imgs[j], force_upload=True)
+                    ids.append([inst.id, ""])
+                except Exception as e:  # noqa: BLE001
+                    ids.append([None, type(e).__name__])
+            holder.execute("ROLLBACK")
+            holder.close()
+            res.append([sp, sub, mx, ids, repr(sp), 3])
+            os.remove(db)
         return res
 
     r = common.in_pty(child, timeout=600)
@@ -105,11 +127,18 @@ def highlevel(ctx, model, cov):
     reqs, meta = [], []
     for sp, sub, mx, ids, spelled, mode in r["ok"]:
         b, e = sub.split(":")
+        refused = [x for x in ids if x[0] is None]
+        ids = [x for x in ids if x[0] is not None]
+        if mode == 3:
+            cov.bump("highlevel/database-locked/refused", len(refused))
+            cov.bump("highlevel/database-locked/id-handed-out", len(ids))
+        if not ids:
+            continue
         idlist = [i for i, _ in ids]
         reqs.append(f"c10.spec_in_sub_many {names[sp]} {b} {e} " + ",".join(str(i) for i in idlist))
         meta.append((sp, sub, mx, ids, spelled, mode))
     for (sp, sub, mx, ids, spelled, mode), bits in zip(meta, model.batch(reqs)):
-        how = ["configured", "per call", "assigned on the live object"][mode]
+        how = ["configured", "per call", "assigned on the live object", "configured, while another writer holds the database lock"][mode]
         cov.bump(f"highlevel/spelling/{'int' if spelled.isdigit() else 'short' if spelled.strip(chr(39)) != sp else 'name'}/{how}")
         for (i, sent), bit in zip(ids, bits):
             cov.add({"path": "TupimageTerminal", "space": sp, "subspace": sub, "max_ids": mx, "id": i}, klass=f"highlevel/{sp}")
